@@ -45,3 +45,8 @@ pub use crate::text::utf8::{verif_broadword_accepts, verif_line_and_column, veri
 pub fn validate_utf8_avx2(input: &[u8]) -> Option<bool> {
     crate::text::utf8::verif_validate_utf8_avx2(input)
 }
+
+// ---- C09: JSON escape scanner tiers
+#[cfg(all(target_arch = "x86_64", not(feature = "scalar-yaml"), feature = "std"))]
+pub use crate::util::simd::escape::verif_json_escape_tier;
+pub use crate::util::simd::escape::find_json_escape;
